@@ -301,8 +301,8 @@ EXTRA = {
     "C10": " Added: the same diff-coverage rule; a write path built from the parent of a directory the function was given (a sibling write) is a violation.",
     "C11": " Added: the import header of the regenerated alias file covers every base class the union of codes can need; string-prefix predicates are modelled by the path algebra; the shared-core predicate must also hold for a core embedded in the first client's package (it becomes shared when a later client names it).",
     "C12": " Added: producers of dot-relative module paths (RenderContext path helpers) may only feed add_relative_import, never an absolute import registration.",
-    "C13": " Added: every EndpointVisitor is built over the schema registry (a mock signature otherwise differs for inline item types); a consumer that reads the coroutine/async-generator nature from the single line closing a rendered signature obliges the signature writer to keep the whole return annotation on that line.",
-    "C14": " Added: the generated get_mapping() has one entry per discriminator value (written from the spec's mapping or an item-wise sequence of it, never from a re-keyed dict).",
+    "C13": " Added: every EndpointVisitor is built over the schema registry (a mock signature otherwise differs for inline item types); a consumer that reads the coroutine/async-generator nature from the single line closing a rendered signature obliges the signature writer to keep the whole return annotation on that line; instance-level memo tables of the shared endpoint generators are keyed by every parameter the value is computed from.",
+    "C14": " Added: the generated get_mapping() has one entry per discriminator value (written from the spec's mapping or an item-wise sequence of it, never from a re-keyed dict); no converter function memoises per type (functools cache / table) a sequence derived from the member order of that type (typing.Union equality ignores order).",
     "C15": " Added: json.dumps used as a Python-literal maker for spec text passes ensure_ascii=False (non-BMP characters survive); re-splitting is judged by provenance, escaping helpers are recognised by their bodies.",
     "C16": " Added: the raw-dict fallback of union decoding applies to dict[str, Any] only (guard evaluated over {str, other} x {Any, other}); no value computed from a class is memoised on the class and read back through an inheriting lookup.",
     "C17": " Added: where plugin-added params/cookies are merged into the caller's value, that value is converted with dict() only under a type test.",
